@@ -57,7 +57,8 @@ def gen_scenario(rng, cfg):
         else:
             ops.append({"op": "subst", "style": rng.choice(["word", "assign"]), "spelling": rng.choice(["back", "dollar"])})
     return {"prop": "C07", "ops": ops, "handler": cfg.get("handler", False) and rng.chance(50),
-            "childpark": bool(cfg.get("childpark")), "lines": [], "launcher": rng.chance(25)}
+            "childpark": bool(cfg.get("childpark")), "lines": [], "launcher": rng.chance(25),
+            "settle_handler": rng.chance(50)}
 
 
 class Member:
@@ -806,6 +807,10 @@ class C07Runner:
             sim.wait_state(m.pid, "ZX", "kill")
             self.mark_dead(m)
         self.wait_dirty = True
+        if not in_wait and self.sc.get("handler") and self.sc.get("settle_handler"):
+            # each event at the prompt becomes a notice of its own (see Sim.wait_sigchld_handled)
+            sim.wait_sigchld_handled()
+            sim.probe("handler_took_the_event_before_the_next_one")
 
     def detach_op(self, op):
         """the only live member of a background job leaves its process group and session (setsid): the job's
@@ -972,7 +977,7 @@ def explicit_cases():
     for ops in sessions:
         for handler in (False, True):
             out.append({"prop": "C07", "ops": [dict(o) for o in ops], "handler": handler, "childpark": False, "lines": [],
-                        "config": "explicit_job_states", "adversarial_picks": 100000})
+                        "config": "explicit_job_states", "adversarial_picks": 100000, "settle_handler": True})
     return out
 
 
